@@ -1641,34 +1641,16 @@ namespace igris
         template <typename... Args>
         iterator emplace(const_iterator pos, Args &&... args)
         {
-            // TODO insert optimization
-            size_t _pos = pos - m_data;
-
-            reserve(m_size + 1);
-            m_size++;
-
-            iterator first = m_data + _pos;
-            iterator last = igris::prev((iterator)end());
-            igris::move_backward(first, last, end());
-            new (first) T(igris::forward<Args>(args)...);
-
-            return first;
+            // built first: the arguments, like pos, may refer to
+            // elements of this vector
+            T value(igris::forward<Args>(args)...);
+            return insert_moved(pos - m_data, igris::move(value));
         }
 
         iterator insert(const_iterator pos, const T &value)
         {
-            // TODO insert optimization
-            size_t _pos = pos - m_data;
-
-            reserve(m_size + 1);
-            m_size++;
-
-            iterator first = m_data + _pos;
-            iterator last = igris::prev((iterator)end());
-            igris::move_backward(first, last, (iterator)end());
-            *first = value;
-
-            return first;
+            T copy(value); // value may be an element of this vector
+            return insert_moved(pos - m_data, igris::move(copy));
         }
 
         iterator insert(iterator pos, const_iterator first, const_iterator last)
@@ -1676,17 +1658,18 @@ namespace igris
             size_t _pos = pos - m_data;
             size_t _first = first - m_data;
             size_t _last = last - m_data;
-
             size_t sz = _last - _first;
+
+            // the range lies in this vector: copy it out before anything moves
+            vector tmp;
+            tmp.reserve(sz);
+            for (size_t i = _first; i < _last; ++i)
+                tmp.push_back(m_data[i]);
+
             reserve(m_size + sz);
-            m_size += sz;
-
-            iterator first_it = m_data + _pos;
-            iterator last_it = igris::prev((iterator)end(), sz);
-            igris::move_backward(first_it, last_it, (iterator)end());
-            igris::copy(m_data + _first, m_data + _last, first_it);
-
-            return first_it;
+            for (size_t i = 0; i < sz; ++i)
+                insert_moved(_pos + i, igris::move(tmp.m_data[i]));
+            return m_data + _pos;
         }
 
         iterator insert(int pos, const T &value)
@@ -1721,19 +1704,23 @@ namespace igris
             m_size = n;
         }
 
-        void erase(iterator newend)
+        iterator erase(iterator pos)
         {
-            m_size = newend - m_data;
+            // as std::vector::erase(pos): removes exactly the element at
+            // pos and returns the position of the element that followed it
+            erase(pos, pos + 1);
+            return pos;
         }
 
         void erase(iterator first, iterator last)
         {
             size_t sz = last - first;
-            for (size_t i = 0; i < sz; ++i)
-            {
-                igris::destructor(first + i);
-            }
-            igris::move(last, end(), first);
+            // shift the tail down by assignment, then destroy what is left
+            // over at the end
+            iterator newend = first;
+            for (iterator it = last; it != end(); ++it, ++newend)
+                *newend = igris::move(*it);
+            igris::array_destructor(newend, end());
             m_size -= sz;
         }
 
@@ -1778,6 +1765,28 @@ namespace igris
         // }
 
     protected:
+        // open a gap at index _pos and move value into it; every slot is
+        // either constructed (the new last one) or assigned (the live ones)
+        iterator insert_moved(size_t _pos, T &&value)
+        {
+            reserve(m_size + 1);
+            iterator first = m_data + _pos;
+            if (_pos == m_size)
+            {
+                igris::move_constructor(m_data + m_size, igris::move(value));
+            }
+            else
+            {
+                igris::move_constructor(m_data + m_size,
+                                        igris::move(m_data[m_size - 1]));
+                igris::move_backward(
+                    first, m_data + m_size - 1, m_data + m_size);
+                *first = igris::move(value);
+            }
+            m_size++;
+            return first;
+        }
+
         unsigned char changeBuffer(size_t sz)
         {
             size_t oldcapacity = m_capacity;
